@@ -360,12 +360,44 @@ def run(run, tier, seed, replay=None):
         shutil.rmtree(TMP, ignore_errors=True)
 
 
+PROVED_WHOLE = ["CheckHeader (C13, given trace)", "CheckPreprocessorProtection (C14, given trace)", "CheckTernary (token kinds)",
+                "CheckLabel (token kinds)", "CheckLineLen (columns <= 81)", "CheckManyInstructions (statement starts in column 1)",
+                "CheckEmptyLine (given view: statements and empty lines)", "CheckFunctionsCount (trace model, <= 5 definitions)"]
+PROVED_PARTIAL = {"CheckLineIndent": "every line but the `{` line", "CheckExpressionStatement": "statements without `return`",
+                  "CheckUtypeDeclaration": "translated part (TYPE_NOT_GLOBAL / FORBIDDEN_<type>), in headers",
+                  "CheckBrace": "TOO_MANY_LINES at <= 25 body lines (scope-trace model)",
+                  "CheckVariableDeclaration": "TOO_MANY_VARS_FUNC at <= 5 declarations (counter model)",
+                  "CheckFuncDeclaration": "TOO_MANY_ARGS at <= 4 parameters (token-level counter)"}
+TESTED_ONLY = ["CheckAssignation", "CheckAssignationIndent", "CheckBlockStart", "CheckBrace", "CheckComment", "CheckCommentLineLen",
+               "CheckControlStatement", "CheckDeclaration", "CheckEnumVarDecl", "CheckExpressionStatement", "CheckFuncArgumentsName",
+               "CheckFuncDeclaration", "CheckFuncSpacing", "CheckGeneralSpacing", "CheckGlobalNaming", "CheckIdentifierName", "CheckInHeader",
+               "CheckLineCount", "CheckLineIndent", "CheckNestLineIndent", "CheckNewlineIndent", "CheckOperatorsSpacing",
+               "CheckPreprocessorDefine", "CheckPreprocessorInclude", "CheckPreprocessorIndent", "CheckPrototypeIndent", "CheckSpacing",
+               "CheckStructNaming", "CheckUtypeDeclaration", "CheckVariableDeclaration", "CheckVariableIndent"]
+
+
+def registry_checks():
+    """the check classes of the CURRENT source (rules/check_*.py): the three lists above must partition them"""
+    import glob
+    import re
+    out = []
+    for p in sorted(glob.glob(os.path.join(common.REPO, "norminette", "rules", "check_*.py"))):
+        with open(p) as f:
+            out += re.findall(r"^class (Check\w+)\(", f.read(), flags=re.M)
+    return sorted(out)
+
+
 def group(hist, prefix):
     return {k[len(prefix):]: v for k, v in sorted(hist.items()) if k.startswith(prefix)}
 
 
 def finish(run, b, sizes, ktables, hist):
     disc = sum(1 for t in b.theorems if t not in b.open_assumptions) if b.make_ok else 0
+    have = registry_checks()
+    claimed = sorted([x.split(" ")[0] for x in PROVED_WHOLE] + TESTED_ONLY)
+    if have != claimed:
+        run.notes.append("the check classes of the source differ from the lists of this check: only in source %s, only in lists %s"
+                         % (sorted(set(have) - set(claimed)), sorted(set(claimed) - set(have))))
     if CANDIDATES["n"]:
         print("CANDIDATE-FINDING: property=C01 a cast to a typedef name directly before unary * & ~ ((t_x)*p) gets SPC_BFR_OPERATOR/SPC_AFTER_OPERATOR "
               "[%s; seen %d times in this run; not listed in KNOWN_FINDINGS.jsonl]" % (fx.K_IDS["K5"], CANDIDATES["n"]))
@@ -378,12 +410,16 @@ def finish(run, b, sizes, ktables, hist):
         "known_family_boundaries": ktables,
         "candidate_new_family_K5 (typedef-name cast directly before unary * & ~; not in KNOWN_FINDINGS.jsonl, reported to the integrator)": dict(CANDIDATES),
         "proved_code_set_K": ["INVALID_HEADER", "HEADER_PROT_*", "lexical codes (lexer.py)"],
-        "tested_not_proved": "every other diagnostic code: the 37 checks other than CheckHeader / CheckPreprocessorProtection are not modelled for C01; "
-                             "their silence on G is established by the search above only (testing, labelled as testing)",
+        "checks_proved_silent_as_a_whole": PROVED_WHOLE,
+        "checks_with_partial_silence_theorems": PROVED_PARTIAL,
+        "checks_tested_not_proved": TESTED_ONLY,
+        "tested_not_proved": "the %d checks of checks_tested_not_proved (of 39): their silence on G is established by the search above only (testing, "
+                             "labelled as testing); %d of them have the partial theorems of checks_with_partial_silence_theorems" % (
+                                 len(TESTED_ONLY), len(PROVED_PARTIAL)),
     }
     return run.finish(max(len(b.theorems), 1), disc, RULE, extra=extra,
                       assumptions=["C01_statement (all 39 checks silent on all of G) is NOT proved and is false of the current tree (K1..K4)",
-                                   "C01_partial_K covers the code set K = {INVALID_HEADER} + HEADER_PROT_* + lexical codes, over the header / guard / lexer models "
-                                   "(given-trace hypotheses as in C13 / C14); the lexeme-level silence theorem covers statement lines of identifiers, "
-                                   "single spaces, simple operators, brackets and the representative constants listed in Spec/Conforming.v",
+                                   "C01_partial_K: 8 of 39 checks proved silent as a whole on conforming statements (6 more partially), under given-view / "
+                                   "given-trace hypotheses; the code set {INVALID_HEADER} + HEADER_PROT_* + lexical codes; the tokenizer on conforming "
+                                   "texts of any number of lines (tabs, identifiers, single spaces, simple operators, brackets, the atoms of Spec/Conforming.v, line ends)",
                                    "K2..K4 are established on the implementation only (CheckOperatorsSpacing is not modelled)"])
